@@ -47,7 +47,7 @@ CLAIMED = {
         "The parse theorem leaves out unary plus and DEF FN parameter renaming, and says 'some fuel suffices' (the Rust parser has no fuel; that the "
         "model's fuel formula suffices is differential); values of ^ with a non-Integer operand are compared by type (powf/powi are oracles); numeric "
         "functions and literal typing differential only.",
-        "Coq theorems on operator typing and on the precedence-climbing parser + tree-rendering spec monitor and type-matrix differential check"),
+        "Coq theorems on operator typing and on the precedence-climbing parser + tree-rendering spec monitor and type-matrix differential check + source tables regenerated by a translator and proved equal to the model's"),
     "C03": entry(
         "the scanner accepts every source text: it returns tokens, never an error, never the model's Panic, never runs out of fuel (Hang) -- "
         "including the progress lemma for number(), the loop that hung in the unrepaired crate; the parser, for every token list and line number, "
@@ -198,7 +198,7 @@ CLAIMED = {
         "histories of insert / replace / bare-number delete / LIST / DELETE in every range form (exhaustive over a small universe, random over the whole "
         "number range) on model and crate; a reference map predicts every LIST output, every rejection and the listing after every step.",
         "That DELETE refuses the bare form at run time and how numbers above 65529 are rejected by the scanner are differential only.",
-        "Coq refinement to an ordered map + reachable-state invariant + history-based differential check with a reference map"),
+        "Coq refinement to an ordered map + reachable-state invariant + history-based differential check with a reference map + source tables regenerated by a translator and proved equal to the model's"),
     "C16": entry(
         "? and ' scan to the PRINT and REM tokens; the operator and GO TO / GO SUB merges hold for any amount of blank space, and for every pair of operator characters "
         "the merge with blanks between them is the merge without (one table, not two: the defect fixed by 638b3f3); the reserved-word table (with its order), the "
@@ -211,7 +211,7 @@ CLAIMED = {
         "back); variants must give the same AST, the same listing modulo LET / remark marker / amount of blank space, and whole programs the same transcript.",
         "PARTIAL: spacing-independence (blanks added, removed, words run together) of the scanner as a whole is decided by the monitor on the crate, not proved. One known finding is listed "
         "(GO SUB glued to digits). Listing equality is modulo the amount of blank space because the listing deliberately keeps the user's blanks.",
-        "Coq theorems on token aliases and on case-independence of the whole scanner + spelling-variant relational check on the implementation"),
+        "Coq theorems on token aliases and on case-independence of the whole scanner + spelling-variant relational check on the implementation + source tables regenerated by a translator and proved equal to the model's"),
     "C17": entry(
         "a reply is cut exactly at the commas outside double quotes: joining the fields with commas gives the reply back, for every reply; n well-formed "
         "fields joined by commas split into exactly those n fields; a reply without commas and quotes is one field; and the protocol, for every machine "
@@ -240,7 +240,7 @@ CLAIMED = {
         "must free slots.",
         "The bound is on pool entries (the crate's own limit), not on bytes of real memory. 'A completed statement leaves nothing behind' is decided by the "
         "long runs, not proved. One known finding is listed (an oversized stored program blocks direct mode).",
-        "Coq reachable-state invariant for the stack + pool lemmas + long-run and limit-driving checks"),
+        "Coq reachable-state invariant for the stack + pool lemmas + long-run and limit-driving checks + source tables regenerated by a translator and proved equal to the model's"),
     "C19": entry(
         "with errors recorded for the stored program every jump into program code stops the machine and reports them, leaving stack, variables and column "
         "alone, while jumps inside the direct line are ordinary; a listed line comes with exactly the ranges recorded for that line, shifted by the width of "
@@ -258,7 +258,7 @@ CLAIMED = {
         "PARTIAL: the attribution of a reference to its own line and the program-level linking are proved for the GOTO / ON..GOTO / LET / PRINT / END "
         "fragment only; the ranges of syntax errors and of WHILE / WEND diagnostics at link time, and the shift by the line-number prefix on display "
         "end to end, are decided by the monitor, not proved.",
-        "Coq theorems on the entry guard and on the linker's diagnostic + fault-injection differential check with an underline monitor"),
+        "Coq theorems on the entry guard and on the linker's diagnostic + fault-injection differential check with an underline monitor + source tables regenerated by a translator and proved equal to the model's"),
     "C20": entry(
         "appending a fragment places its code unchanged behind the existing code; linking patches every recorded reference whose symbol is defined with "
         "that symbol's address, touches no other instruction and changes only the address operand; a line symbol records the address at which the line "
@@ -307,7 +307,8 @@ def main():
                    baseline_off_cmd="cd /repo && cargo test --workspace --no-fail-fast --offline",
                    source_commits=[], add_only=True),
         engines=[dict(name="coq-model-correspondence", path="tools/check.py", serves_properties=sorted(CLAIMED),
-                      kind_free_text="Gallina model of the interpreter + Coq theorems (coq/), extracted OCaml driver vs Rust harness "
+                      kind_free_text="Gallina model of the interpreter + Coq theorems (coq/), the source's literal tables regenerated into the model "
+                                     "by tools/tables.py and proved equal to the model's, extracted OCaml driver vs Rust harness "
                                      "differential check, reference semantics and Python monitors for the violation search")],
         checks=checks,
         not_applicable=na,
